@@ -31,7 +31,7 @@ PROPS = {
          "note": "trusted: the hashbrown contract model; old-table lookup completeness (FnMut reborrow) and values behind bucket pointers are not decided here",
          "not_decided": ["old-table lookup completeness: `find` passes `&mut eq` to the first lookup, Verus must assume the FnMut changed", "values written through dereferenced buckets", "raw-entry builder chains, extend/from_iter (iterator adapters)"]},
  "C02": {"level": "proof", "technique": "Verus postconditions: carry moves exactly min(R, remaining), R == 8, growth relocates nothing, insert recursion decreases",
-         "claim": "Unbounded proof that a key-adding call relocates at most R = 8 elements (carry.moves_exact, quota_is_eight), that growth parks the old table unchanged (no rehash), that insert grows at most once (decreases), that lookups/removals touch only the addressed bucket (frame clauses) and that the in-place reserve path never calls the hasher (closure `requires false`). " + V,
+         "claim": "Unbounded proof that a key-adding call relocates at most R = 8 elements (carry.moves_exact, quota_is_eight), that growth parks the old table unchanged (no rehash), that insert grows at most once (decreases), that reserve/try_reserve on a map with no resize pending relocate nothing (either in place, or the old table is parked unchanged), that lookups/removals touch only the addressed bucket (frame clauses), that HashMap::insert carries on an overwrite only when the overwritten element is in the old table, and that the in-place reserve path never calls the hasher (closure `requires false`). " + V,
          "note": "exact hash/allocation counts are not expressible without cost tokens; derived from the relocation bound plus the structure of the call graph (assumption)",
          "not_decided": ["exact number of hash computations / allocations (structural argument only)"]},
  "C03": {"level": "proof", "technique": "Verus postconditions (exact progress, old table freed at zero) + induction lemma over the step relation",
@@ -49,9 +49,9 @@ PROPS = {
          "note": "Drop, mem::forget and deallocation are trusted to Rust ownership",
          "not_decided": ["Drop execution, leak freedom of allocations"]},
  "C07": {"level": "proof", "technique": "Verus assertions that the representation invariant holds at every call-out to user code in the raw layer",
-         "claim": "Unbounded proof that at each call of hasher / the replace closure inside the raw layer the structure already satisfies sync/headroom with only the in-flight element missing, so unwinding from that point leaves a consistent map. " + V,
-         "note": "unwinding itself is not modelled (invariant-at-callout argument); predicates of retain/drain_filter and Clone panics are not decided",
-         "not_decided": ["retain/drain_filter predicate panics", "Clone panics inside hashbrown", "double drops during unwinding"]},
+         "claim": "Unbounded proof that at each call of user code inside the verified functions -- the hasher in carry/carry_all, the closure hashbrown runs in replace_bucket_with, Clone/Hash inside clone_from, and the predicates of retain and drain_filter -- the structure already satisfies its invariants with only the in-flight element missing (and, for clone_from, the destination's old table already dropped), so unwinding from that point leaves a consistent map. " + V,
+         "note": "unwinding itself is not modelled (invariant-at-call-out argument); Clone panics inside hashbrown's clone and double drops during unwinding are not decided",
+         "not_decided": ["Clone panics inside hashbrown", "double drops during unwinding", "carry refactored to own the old table locally (seed C07-6) ends UNDECIDED"]},
  "C08": {"level": "proof", "technique": "Verus contracts on iter/drain/into_iter_from and on next/size_hint of RawIntoIter/RawDrain/RawIter",
          "claim": "Unbounded proof that iter() covers exactly main + old table (old part = clone of the cached iterator), that drain detaches the old table at once, that into_iter/RawIntoIter/RawDrain yield each remaining element once and are fused, that every size_hint is the exact sum, and that the map- and set-level wrappers (Iter, IterMut, Keys, Values, ValuesMut, IntoIter, Drain and the set versions) are created covering the whole map and count down by exactly one per yielded element. " + V,
          "note": "RawIter::next is outside Verus' subset (closure capturing &mut): its contract is assumed",
@@ -61,7 +61,7 @@ PROPS = {
          "note": "which elements are kept depends on values read through bucket pointers: not decided by Verus",
          "not_decided": ["partition by the predicate (values behind as_mut())"]},
  "C10": {"level": "proof", "technique": "Verus contracts of with_capacity/reserve/try_reserve/shrink_to incl. overflow-freedom of every usize operation",
-         "claim": "Unbounded proof, for all n and m in usize, that reserve/try_reserve(Ok) leave growth_left >= leftovers + n, that Err leaves the table unchanged, that shrink_to never enlarges or loses elements and keeps capacity >= len, and that no size computation can overflow in either profile. " + V,
+         "claim": "Unbounded proof, for all n and m in usize, that reserve/try_reserve(Ok) leave growth_left >= leftovers + n, that Err leaves the table unchanged, that try_reserve (and every function whose documentation announces no capacity-overflow panic) can never reach hashbrown's panicking allocation entry points (uninterpreted permission required by with_capacity / a growing reserve), that shrink_to never enlarges or loses elements, keeps capacity >= len and >= min(m, ...) when it resizes, and that no size computation can overflow in either profile, at raw, map and set level. " + V,
          "note": "allocation failure/capacity overflow behaviour of hashbrown is modelled (with_capacity returns only for c <= isize::MAX)"},
  "C11": {"level": "proof", "technique": "Verus contracts on clone_with_hasher / clone_from_with_hasher (structure: unsplit result, size)",
          "claim": "Unbounded proof on the real bodies of Clone for HashMap (clone, clone_from) and of the raw functions beneath them (incl. and_carry_with_hasher): the destination's own old table is dropped first, the result is unsplit, well-formed, has the source's element count, and is hashed under the hash builder the map ends up with (a clone of the source's). " + V,
